@@ -382,3 +382,62 @@ Proof.
   destruct (in_dec sz_dec x l2) as [I2|N2]; [apply Nat.eqb_eq, H2, I2|].
   rewrite !occ_zero by assumption. reflexivity.
 Qed.
+
+(** * one request through several balancers (group chain) *)
+
+(** model: a stage's outcome is [choose] on that stage's own key and list *)
+Lemma chain_run_nth q : forall stages r envs s p hk l t d,
+  nth_error stages s = Some (p, hk, l) -> nth_error envs s = Some (t, d) ->
+  nth_error (chain_run q stages r envs) s = Some (choose q p l {| tk := t; dr := d; ky := stage_key p hk r |}).
+Proof.
+  induction stages as [|[[p0 hk0] l0] st IH]; intros r envs s p hk l t d Hs He; [destruct s; discriminate|].
+  destruct envs as [|[t0 d0] en]; [destruct s; discriminate|].
+  destruct s as [|s]; cbn [nth_error chain_run] in *.
+  - inversion Hs; inversion He; subst. reflexivity.
+  - eapply IH; eassumption.
+Qed.
+
+Lemma chain_own_key q stages r1 r2 envs1 envs2 s p hk l t1 d1 t2 d2 :
+  nth_error stages s = Some (p, hk, l) ->
+  p = IPHash \/ p = HeaderHash ->
+  nth_error envs1 s = Some (t1, d1) -> nth_error envs2 s = Some (t2, d2) ->
+  stage_key p hk r1 = stage_key p hk r2 ->
+  nth_error (chain_run q stages r1 envs1) s = nth_error (chain_run q stages r2 envs2) s.
+Proof.
+  intros Hs Hp H1 H2 Hk.
+  rewrite (chain_run_nth q stages r1 envs1 s p hk l t1 d1 Hs H1), (chain_run_nth q stages r2 envs2 s p hk l t2 d2 Hs H2).
+  f_equal. apply hash_sticky; [exact Hp|exact Hk].
+Qed.
+
+Lemma combine_seq_In {A} : forall (l : list A) from s x,
+  nth_error l s = Some x -> In ((from + s)%nat, x) (combine (seq from (List.length l)) l).
+Proof.
+  induction l as [|a t IH]; intros from s x H; [destruct s; discriminate|].
+  cbn [List.length seq combine]. destruct s as [|s]; cbn [nth_error] in H.
+  - inversion H; subst. left. f_equal. lia.
+  - right. replace (from + S s)%nat with (S from + s)%nat by lia. apply IH. exact H.
+Qed.
+
+Theorem prop_chain_sound stages reqs :
+  prop_chain stages reqs = true ->
+  forall s pol hk n, nth_error stages s = Some (pol, hk, n) ->
+    seg_clauses (policy_of_string pol) (stage_ws n) 0 (column s reqs) /\
+    (policy_of_string pol = IPHash \/ policy_of_string pol = HeaderHash ->
+     (* two requests with the same key AT THIS STAGE got the same server at this stage - whatever
+        else the requests carry: other headers, the client address, what the other stages hashed
+        or chose before or after *)
+     forall j1 j2 r1 r2, nth_error reqs j1 = Some r1 -> nth_error reqs j2 = Some r2 ->
+       fst (nth s (snd r1) (""%string, -4)) = fst (nth s (snd r2) (""%string, -4)) ->
+       snd (nth s (snd r1) (""%string, -4)) = snd (nth s (snd r2) (""%string, -4))).
+Proof.
+  intros H s pol hk n Hs. unfold prop_chain in H. apply andb_true_iff in H as [H _].
+  rewrite forallb_forall in H.
+  pose proof (combine_seq_In stages 0 s (pol, hk, n) Hs) as Hin. cbn [Nat.add] in Hin.
+  specialize (H _ Hin). cbn in H. apply prop_sel_sound in H. split; [exact H|].
+  intros Hp j1 j2 r1 r2 H1 H2 Hk.
+  destruct H as (_ & _ & _ & C3 & _). specialize (C3 Hp).
+  set (e1 := nth s (snd r1) (""%string, -4)) in *. set (e2 := nth s (snd r2) (""%string, -4)) in *.
+  apply (C3 j1 j2 (fst e1) (snd e1) (snd e2)).
+  - unfold column. rewrite nth_error_map, H1. cbn. fold e1. destruct e1; reflexivity.
+  - unfold column. rewrite nth_error_map, H2. cbn. fold e2. rewrite Hk. destruct e2; reflexivity.
+Qed.
